@@ -93,3 +93,11 @@ Proof. exact Proofs.C15.extensible_alone_no_annotation. Qed.
 Theorem C15_extensible_ignored :
   forall fuel t s cs, collect fuel t ({| cset := s; cext := true |} :: cs) = collect fuel t cs.
 Proof. exact Proofs.C15.extensible_ignored. Qed.
+
+(* the marker written inside the parentheses of FROM -- `FROM ("a".."c" | "x", ...)` -- makes the permitted alphabet extensible as
+   well: no closed alphabet (until the fix of this defect the marked last operand was skipped and the rest emitted as closed) *)
+Theorem C15_from_ending_with_marker_no_annotation :
+  forall fuel t inner,
+    ends_with_marker inner = true ->
+    alphabet_annotation fuel t [{| cset := El (Alpha inner); cext := false |}] = Ok None.
+Proof. exact Proofs.C15.from_ending_with_marker_no_annotation. Qed.
